@@ -97,7 +97,15 @@ def main():
     evd = tempfile.mkdtemp(prefix='seedev_', dir='/tmp')
     try:
         if applied:
+            only = None
+            if os.environ.get('SEED_PROPS') == 'auto' and os.path.exists(prev):
+                # re-evaluation of a stored seed: only its own property and the properties that reported something last time are run again; the other results are kept
+                pm0 = json.load(open(prev))
+                only = set([sid.split('-')[0]]) | set(pm0.get('caught_by', [])) | set(pm0.get('undecided_in', []))
+                alarms.update(pm0.get('check_results', {}))
             for pid in sorted(PROPS):
+                if only is not None and pid not in only:
+                    continue
                 rc, o = sh('REPO=%s VERIF_PRIVATE_BUILD=1 VERIF_EVIDENCE_DIR=%s ./check %s' % (scratch, evd, pid), ROOT, timeout=3600)
                 viol = [l for l in o.split('\n') if l.startswith('VIOLATION')]
                 und = [l for l in o.split('\n') if l.startswith('UNDECIDED')]
